@@ -187,6 +187,8 @@ class Layouts:
         self.state[key] = UNKNOWN if (cur is UNKNOWN or lay is UNKNOWN) else cur + lay
 
     def _looks_list(self, v):
+        if isinstance(v, ast.IfExp):
+            return self._looks_list(v.body) and self._looks_list(v.orelse)
         return isinstance(v, (ast.List, ast.ListComp)) or (isinstance(v, ast.BinOp) and isinstance(v.op, (ast.Add, ast.Mult))
                                                           and any(isinstance(x, (ast.List, ast.ListComp)) for x in (v.left, v.right))) \
             or (isinstance(v, ast.Call) and str(U(v.func)) in ("list", "copy", "deepcopy", "chain", "chain.from_iterable"))
@@ -238,7 +240,9 @@ class Layouts:
                 self.state = dict(before)
                 self._run(st.orelse)
                 b = self.state
-                self.state = {k: (a.get(k) if a.get(k) == b.get(k) else UNKNOWN) for k in set(a) | set(b)}
+                # a list built on one arm only keeps its layout (whether it exists at all is not this engine's question)
+                self.state = {k: (a[k] if k not in b else b[k] if k not in a else a[k] if a[k] == b[k] else UNKNOWN)
+                              for k in set(a) | set(b)}
                 continue
             if isinstance(st, (ast.With, ast.Try)):
                 self._run(st.body)
